@@ -18,7 +18,7 @@ func init() {
 	register(&Driver{
 		ID:        "C04",
 		Technique: "explicit-state exploration: all well-nested operation trees (create / nested create / lookups with and without early references / failing create / failing early factory) up to a size bound executed on a fresh real singleton registry with a reference automaton stepped alongside; plus the same automaton monitored on every registry call of real starts with every single injected fault, followed by repeated lookups",
-		Rule:      "layer 1: op trees over names {a,b}, ops {Get(n,early?), InCreation(n), Add(n) (direct publication), Create(n){body}->ok|err with ok|failing early factory}, <=4 ops nesting <=2 (thorough <=5/3); states = distinct abstract protocol states (per name: published, creating depth, early ref seen, failed, in-creation mark); layers 2+3: 3-node graphs x lazy masks x every single fault site, then 3 rounds of by-name lookups; non-trivial = history contains a nested or failing creation",
+		Rule:      "layer 1: op trees over names {a,b}, ops {Get(n,early?), InCreation(n), Add(n) (direct publication), Create(n){body}->ok|err with ok|failing early factory}, <=4 ops nesting <=2 (thorough <=5/3); states = distinct abstract protocol states (per name: published, creating depth, early ref seen, failed, in-creation mark); layers 2+3: 3-node graphs x lazy masks x every single fault site, then 3 rounds of by-name lookups; non-trivial = history contains a nested or failing creation. Families added in later rounds (look-ups inside Init, retries after an abandoned attempt, user extension points at every Order, several containers, odd names / types / values) are listed per part in this file and described in MANIFEST.json (level_claimed.text) and DESIGN §7",
 		Assumptions: []string{
 			"registry-level histories are those a factory can issue: the creation body starts by registering the early-reference factory; no re-entrant creation of a name already in creation",
 			"> 2 names or > 5 operations at registry level are not covered",
